@@ -496,3 +496,63 @@ Definition skel_eqb (a b : skel) : bool :=
   Bool.eqb (k_kick a) (k_kick b) && Bool.eqb (k_catches a) (k_catches b) &&
   Bool.eqb (k_err_return a) (k_err_return b) && Bool.eqb (k_err_counts a) (k_err_counts b) &&
   Bool.eqb (k_expire_empty a) (k_expire_empty b).
+
+(* ------------------------------------------------------------------------------------------ *)
+(* Part 5 — histories: several logins on ONE channel / driver object (open, close, open, ...)  *)
+(* ------------------------------------------------------------------------------------------ *)
+(* Where the prompt counters, the login buffer and return_attempts live decides what a login call
+   inherits from the earlier ones on the same object:
+     CsLocal  — they are locals of the login function, initialised by every call (the shape
+                gen/gen_auth.py reads from the source: Gen_Auth.gen_counter_scope);
+     CsObject — the counters are attributes of the channel object, initialised with it and never
+                reset: a call starts from what the earlier calls have counted. *)
+Inductive cscope := CsLocal | CsObject.
+
+Definition start_of (sc : cscope) (carried : counts) : st :=
+  match sc with CsLocal => init | CsObject => mkSt [] carried 1 end.
+
+(* open loop: one list of read events per login; carried = prompts answered by the earlier logins *)
+Fixpoint hist_run (sc : cscope) (cf : cfg) (carried : counts) (logins : list (list ev))
+  : list (outcome * list item) :=
+  match logins with
+  | [] => []
+  | evs :: rest =>
+      let r := exec cf (start_of sc carried) evs in
+      (outcome_of (snd r), fst r) :: hist_run sc cf (addc carried (answers (fst r))) rest
+  end.
+
+(* closed loop: every login talks to a fresh server session (its dialogue and chunking schedule) *)
+Fixpoint hist_cl (sc : cscope) (cf : cfg) (carried : counts) (ss : list (list phase * list (nat * N)))
+  : list (list item * clres) :=
+  match ss with
+  | [] => []
+  | s :: rest =>
+      let r := cl_exec cf (start_of sc carried) (cl_start (fst s)) (fst s) (snd s) in
+      r :: hist_cl sc cf (addc carried (answers (fst r))) rest
+  end.
+
+(* a session in which the server accepts the credentials: it asks for se_cs (each at most twice: one
+   re-prompt), then prints the MOTD and the shell prompt; the schedule delivers all of it *)
+Record session := mkSession {
+  se_asked : list phase; se_ph : phase; se_rest : list phase; se_cs : list cred; se_sched : list (nat * N)
+}.
+Definition se_phs (s : session) : list phase := se_asked s ++ se_ph s :: se_rest s.
+Definition se_io (s : session) : list phase * list (nat * N) := (se_phs s, se_sched s).
+
+Definition session_ok (cf : cfg) (s : session) : Prop :=
+  map p_exp (se_asked s) = map XCred (se_cs s) /\ p_exp (se_ph s) = XShell /\
+  (forall c, occ c (se_cs s) <= 2)%nat /\
+  dlg_ok cf (se_phs s) /\ no_kick_sched cf (se_sched s) /\
+  (total_len (se_asked s ++ [se_ph s]) < count_pos (se_sched s))%nat.
+
+(* the login of this session returned, having written exactly one answer per prompt *)
+Definition login_done (s : session) (r : list item * clres) : Prop :=
+  snd r = ClStop ODone /\ answers (fst r) = se_cs s /\ count_ret (fst r) = 0%nat.
+
+(* "with valid credentials login completes", for EVERY login of EVERY history on one object *)
+Definition history_completes_for (sc : cscope) : Prop :=
+  forall cf ss, empties cf -> Forall (session_ok cf) ss ->
+    Forall2 login_done ss (hist_cl sc cf zero (map se_io ss)).
+
+Definition cscope_eqb (a b : cscope) : bool :=
+  match a, b with CsLocal, CsLocal | CsObject, CsObject => true | _, _ => false end.
